@@ -18,7 +18,7 @@ import time
 
 VERIF = os.path.dirname(os.path.dirname(os.path.abspath(__file__)))
 REPO = os.environ.get("VERIF_REPO", "/repo")
-BUILD = os.path.join(VERIF, "build")
+BUILD = os.environ.get("VERIF_BUILD", os.path.join(VERIF, "build"))
 REPO_BUILD = os.path.join(BUILD, "repo")
 COQ = os.path.join(VERIF, "coq")
 GUARD = "DANMAR_CPPCHECK_VERIF"
